@@ -640,6 +640,8 @@ class Exec:
                 # python returns the operand, not a bool; only support when every operand is boolean-like
                 if isinstance(n.op, ast.Or) and len(vals) == 2 and not is_sym(vals[0]):
                     return vals[0] if truth(vals[0]) else vals[1]
+                if isinstance(n.op, ast.Or) and len(vals) == 2 and isinstance(vals[0], z3.ArithRef) and not isinstance(vals[1], (bool, z3.BoolRef)):
+                    return z_ite(vals[0] != 0, vals[0], vals[1])  # `x or y` on numbers: x unless it is 0
                 raise Unsupported("and/or over non-boolean operands")
         return z_and(*ts) if isinstance(n.op, ast.And) else z_or(*ts)
 
